@@ -409,6 +409,7 @@ def judgeHist : P Verdict := do
   let mut step := 0
   let mut inexact := false
   let mut pending : Option String := none
+  let mut pendingC10 : Option String := none
   let mut nontrivial := false
   let mut everFaulted := false   -- C06 speaks about histories under a correct solver
   while (← peek?) == some ";" do
@@ -455,7 +456,12 @@ def judgeHist : P Verdict := do
           let hi := mags.foldl max 0
           let lo := mags.foldl min hi
           let ill := lo > 0 && hi / lo ≥ (2 : Q) ^ 20
-          return .propfail s!"[C10] step {step} ({opname}): the solver reported Infeasible for a polytope containing {showVec x} with margin 1e-6{if ill then " (ill-scaled system: coefficient magnitudes differ by a factor ≥ 2^20)" else ""}"
+          let msg := s!"[C10] step {step} ({opname}): the solver reported Infeasible for a polytope containing {showVec x} with margin 1e-6{if ill then " (ill-scaled system: coefficient magnitudes differ by a factor ≥ 2^20)" else ""}"
+          -- on an ill-scaled system (the regime of the known finding about minilp) the verdict is returned at once; on a
+          -- well-scaled one it is remembered and the oracles of the step's own property still run: what the pruning does
+          -- with the wrong answer is then reported with a failing input of that property
+          if ill then return .propfail msg
+          if pendingC10.isNone then pendingC10 := some msg
     -- values at the sampled inputs against the specification of the step
     for (x, e) in pts.zip ev' do
       let want := specStep t op x
@@ -583,6 +589,12 @@ def judgeHist : P Verdict := do
         if illScaled t' && treeCmp (t.indices.filter (fun i => mt.indices.contains i)) true (eraseStates mt) (eraseStates t') != .different then
           inexact := true
           tag "state-at-threshold"
+        else if illScaled t' && !os.log.isEmpty then
+          -- the other direction (thorough tier, 1 of 22 500 distillation histories, coefficients of size 10¹²): the code's
+          -- float `contains` rejected a cached witness that the exact one accepts, so the code asked the solver a
+          -- question the model never asked (its answer is left over in the log) and pruned on the answer
+          inexact := true
+          tag "contains-at-threshold-extra-question"
         else
         if pending.isNone then pending := some s!"step {step} ({opname}): model tree differs from the implementation's tree (structure, maps, states or kept indices) MODEL {showTree mt} IMPL {showTree t'} BEFORE {showTree t}"
     t := t'
@@ -634,6 +646,7 @@ def judgeHist : P Verdict := do
           else return .propfail s!"[C01] at input {showVec x} the network gives {showOptVec want} but the distilled tree evaluates to {showOptVec got}"
     if same != 1 then
       return .diverge "afftree_from_layers: the builder's tree differs from the step-by-step replay with the same public operations (the model of the builder is this sequence of steps)"
+  if let some m := pendingC10 then return .propfail m
   if let some d := pending then return .diverge d
   pure (if inexact then .inexact "values" else .ok)
 
